@@ -32,6 +32,13 @@ class UserModel:
         self.xu = np.array(spec["xu"], dtype=float).reshape(n)
         self.cl = np.array(spec["cl"], dtype=float).reshape(m)
         self.cu = np.array(spec["cu"], dtype=float).reshape(m)
+        ex_ = spec.get("expo")
+        self.expo = None
+        if ex_:
+            # sum_j exp(k_j x_j - s_j): finite at the start, overflows to +inf a few units further
+            # on -- a *natural* non-finite value inside the box.  Evaluated under the process-wide
+            # numpy error mode, like any user callback written in plain numpy.
+            self.expo = (np.array(ex_["k"], dtype=float).reshape(n), np.array(ex_["s"], dtype=float).reshape(n))
         dom = spec.get("dom")
         self.dom = None
         if dom:
@@ -40,7 +47,21 @@ class UserModel:
                 np.array(dom["lo"], dtype=float).reshape(n),
             )
 
+    def _expo(self, x):
+        k, s_ = self.expo
+        sel = k != 0
+        e = np.zeros(self.n)
+        e[sel] = np.exp(k[sel] * x[sel] - s_[sel])
+        return k, e
+
     def f(self, x):
+        extra = 0.0
+        if self.expo is not None:
+            k, e = self._expo(x)
+            extra = float(e.sum())
+        return self._f0(x) + extra
+
+    def _f0(self, x):
         with np.errstate(all="ignore"):
             v = 0.5 * x @ self.Q @ x + self.q @ x + (self.a * x**4).sum() / 4
             if self.dom is not None:
@@ -50,6 +71,13 @@ class UserModel:
         return float(v)
 
     def g(self, x):
+        v = self._g0(x)
+        if self.expo is not None:
+            k, e = self._expo(x)
+            v = v + k * e
+        return v
+
+    def _g0(self, x):
         with np.errstate(all="ignore"):
             v = self.Q @ x + self.q + self.a * x**3
             if self.dom is not None:
@@ -69,6 +97,13 @@ class UserModel:
         return self.A + self.B * x[None, :]
 
     def H(self, x, y):
+        H = self._H0(x, y)
+        if self.expo is not None:
+            k, e = self._expo(x)
+            H = H + np.diag(k * k * e)
+        return H
+
+    def _H0(self, x, y):
         with np.errstate(all="ignore"):
             H = self.Q + np.diag(3 * self.a * x * x)
             if self.m > 0:
